@@ -18,6 +18,7 @@ type TV struct {
 	gt    types.Type
 	ip    *IPtr
 	isNil bool
+	wf    string // allocated object this value was read from (for heap well-formedness facts)
 }
 
 type TEnv struct {
@@ -150,7 +151,9 @@ func (te *TEnv) term(e Expr) TV {
 			}
 			es := reg.sortOf(sl.Elem())
 			h := vc.heapGet(te.st, heapKeyElem(es), "(Array Int (Array Int "+es+"))")
-			return TV{t: "(select (select " + h + " (sref " + base.t + ")) (+ (soff " + base.t + ") " + idx.t + "))", sort: es, gt: sl.Elem()}
+			t := "(select (select " + h + " (sref " + base.t + ")) (+ (soff " + base.t + ") " + idx.t + "))"
+			te.wellFormed("(sref "+base.t+")", t, sl.Elem())
+			return TV{t: t, sort: es, gt: sl.Elem(), wf: "(sref " + base.t + ")"}
 		}
 		if strings.HasPrefix(base.sort, "(Array ") {
 			se := parseSExpr(base.sort)
@@ -401,13 +404,19 @@ func (te *TEnv) step(cur TV, fi int) TV {
 		if si == nil {
 			return TV{}
 		}
-		return TV{t: vc.readField(te.st, cur.t, si, fi), sort: si.fields[fi].sort, gt: si.fields[fi].typ}
+		t := vc.readField(te.st, cur.t, si, fi)
+		te.wellFormed(cur.t, t, si.fields[fi].typ)
+		return TV{t: t, sort: si.fields[fi].sort, gt: si.fields[fi].typ, wf: cur.t}
 	}
 	si := reg.structInfoOf(gt)
 	if si == nil {
 		return TV{}
 	}
-	return TV{t: "(" + accessor(si, fi) + " " + cur.t + ")", sort: si.fields[fi].sort, gt: si.fields[fi].typ}
+	t := "(" + accessor(si, fi) + " " + cur.t + ")"
+	if cur.wf != "" {
+		te.wellFormed(cur.wf, t, si.fields[fi].typ)
+	}
+	return TV{t: t, sort: si.fields[fi].sort, gt: si.fields[fi].typ, wf: cur.wf}
 }
 
 func (te *TEnv) nilOf(other TV) string {
@@ -462,7 +471,7 @@ func (te *TEnv) binary(x *EBin) TV {
 	case "-":
 		return TV{t: "(- " + l.t + " " + r.t + ")", sort: sortInt}
 	case "*":
-		return TV{t: "(* " + l.t + " " + r.t + ")", sort: sortInt}
+		return TV{t: mulTerm(l.t, r.t), sort: sortInt}
 	case "/":
 		return TV{t: "(tdiv " + l.t + " " + r.t + ")", sort: sortInt}
 	case "%":
@@ -486,11 +495,21 @@ func (te *TEnv) call(x *ECall) TV {
 		if !need(len(m.Params)) {
 			return TV{t: "false", sort: sortBool}
 		}
-		sub := map[string]Expr{}
-		for i, p := range m.Params {
-			sub[p] = x.Args[i]
+		// call-by-value in the current state: arguments are translated once and named, so that a
+		// macro body mentioning a parameter several times does not duplicate the argument term.
+		inner := *te
+		inner.vars = make(map[string]TV, len(te.vars)+len(m.Params))
+		for k, v := range te.vars {
+			inner.vars[k] = v
 		}
-		return te.term(substExpr(m.Body, sub))
+		for i, p := range m.Params {
+			a := arg(i)
+			a = te.named(a, "m_"+p)
+			inner.vars[p] = a
+		}
+		r := inner.term(m.Body)
+		te.errs = append(te.errs, inner.errs...)
+		return te.named(r, "m_"+m.Name)
 	}
 	switch x.Fn {
 	case "len":
@@ -749,6 +768,7 @@ func (te *TEnv) havocDesignator(m ModItem, st *State) {
 				key := heapKeyElem(es)
 				hs := "(Array Int (Array Int " + es + "))"
 				h := vc.heapGet(st, key, hs)
+				vc.logWrite(key, "(sref "+tv.t+")")
 				vc.heapSet(st, key, hs, "(store "+h+" (sref "+tv.t+") "+vc.fresh("hv_elems", "(Array Int "+es+")")+")")
 				return
 			}
@@ -760,4 +780,67 @@ func (te *TEnv) havocDesignator(m ModItem, st *State) {
 		return
 	}
 	te.fail("cannot interpret modifies designator %s", m.Text)
+}
+
+func isNumeral(t string) bool {
+	if t == "" {
+		return false
+	}
+	for _, c := range t {
+		if c < '0' || c > '9' {
+			return false
+		}
+	}
+	return true
+}
+
+// mulTerm: products of two symbolic terms are abstracted by the uninterpreted function mulI so that
+// no nonlinear arithmetic is asked of the solvers (sound for validity: whatever holds for every
+// function mulI holds for multiplication). Products with a numeral stay linear.
+func mulTerm(a, b string) string {
+	if isNumeral(a) || isNumeral(b) || strings.HasPrefix(a, "(- ") && isNumeral(strings.TrimSuffix(a[3:], ")")) || strings.HasPrefix(b, "(- ") && isNumeral(strings.TrimSuffix(b[3:], ")")) {
+		return "(* " + a + " " + b + ")"
+	}
+	return "(mulI " + a + " " + b + ")"
+}
+
+// wellFormed: heap well-formedness. References stored in an allocated object of a state are
+// themselves allocated in that state (Go has no dangling or future pointers).
+func (te *TEnv) wellFormed(base, term string, t types.Type) {
+	vc := te.vc
+	if strings.Contains(term, "!q") || strings.Contains(base, "!q") {
+		return // mentions a bound variable
+	}
+	var facts []string
+	te.refFacts(term, t, 0, &facts)
+	if len(facts) == 0 {
+		return
+	}
+	fact := "(=> (and (> " + base + " 0) (<= " + base + " " + te.st.alloc + ")) (and " + strings.Join(facts, " ") + "))"
+	vc.assumeOnce(fact)
+}
+
+func (te *TEnv) refFacts(term string, t types.Type, depth int, out *[]string) {
+	if depth > 2 {
+		return
+	}
+	t = types.Unalias(t)
+	if isMathInt(t) || isAccAddress(t) {
+		return
+	}
+	switch t.Underlying().(type) {
+	case *types.Pointer, *types.Map:
+		*out = append(*out, "(<= "+term+" "+te.st.alloc+")", "(>= "+term+" 0)")
+	case *types.Slice:
+		*out = append(*out, "(<= (sref "+term+") "+te.st.alloc+")", "(>= (slen "+term+") 0)", "(>= (soff "+term+") 0)")
+	}
+}
+
+// named introduces a constant for a large closed term (no bound variables).
+func (te *TEnv) named(tv TV, hint string) TV {
+	if tv.ip != nil || tv.isNil || tv.sort == "" || len(tv.t) < 48 || strings.Contains(tv.t, "!q") {
+		return tv
+	}
+	tv.t = te.vc.define(hint, tv.sort, tv.t)
+	return tv
 }
